@@ -208,6 +208,10 @@ C["C12"]["harnesses"] += [
 ]
 C["C12"]["assumptions"] += ["Diffie-Hellman replaced by 'both sides derive the same opaque secret'; SHA-1 of the secret by arbitrary fixed strings per label (req1 not starting with a zero byte); HASH(req2,SKEY) by an injective function of the key; RC4 by XOR with a fixed non-repeating keystream per key label; pads are zero bytes: excludes only the 2^-64 coincidence of a marker occurring inside padding", "encryption policy matrix of btconn.Accept/Dial not covered yet"]
 
+C["C12"]["harnesses"] += [
+    H("ZZAcceptPolicy", "internal/btconn", "real btconn.Accept (real mse.HandshakeIncoming underneath) against a peer that dials in cleartext or runs the real mse.HandshakeOutgoing offering plaintext / RC4 / both, force-incoming-encryption on/off, crypto replaced by the algebraic model: forced => accepted only with RC4, a cleartext dial or plaintext-only offer is refused and never answered in cleartext; not forced => cleartext accepted as cleartext, plaintext-only offer selects plaintext, RC4 preferred when offered; reported handshake fields are the peer's; the peer reads the acceptor's handshake unchanged", T(120, 900), T(120, 900), replay="model"),
+]
+
 for pid, spec in C.items():
     spec = dict(property=pid, **spec)
     json.dump(spec, open(os.path.join(D, pid + ".json"), "w"), indent=1)
